@@ -1521,6 +1521,103 @@ pub fn proto(seed: u64, tier: u32) -> Cx {
     cx
 }
 
+/// C20 on a multi-thread runtime: while a publisher commits epochs and readers run, another task tombstones the old
+/// value states of a label through the same storage manager.  Every (epoch, root hash) answer must be a published pair,
+/// lookups must verify, the label's history must verify with AllowMissingValues, and at the end the epoch hashes must be
+/// the ones the publishes returned (tombstoning changes nothing the directory has committed to).
+pub fn c20_parallel<TC: Configuration>(cx: &mut Cx, publishes: usize, cached: bool) {
+    let cfg = cfg_name::<TC>();
+    let rt = tokio::runtime::Builder::new_multi_thread().worker_threads(4).enable_all().build().unwrap();
+    let res: Result<(), String> = rt.block_on(async {
+        let (base, labels) = base_history();
+        let ctl = Ctl::new(1);
+        let db = GateDb { inner: AsyncInMemoryDatabase::new(), ctl: ctl.clone() };
+        let st = if cached { StorageManager::new(db.clone(), Some(Duration::from_secs(3600)), None, Some(Duration::from_secs(3600))) } else { StorageManager::new_no_cache(db.clone()) };
+        let dir = Directory::<TC, _, _>::new(st.clone(), HardCodedAkdVRF {}, AzksParallelismConfig::disabled()).await.unwrap();
+        let mut hashes = vec![dir.get_epoch_hash().await.map_err(|e| format!("{:?}", e))?.1];
+        for b in &base {
+            hashes.push(dir.publish(upd(b)).await.map_err(|e| format!("{:?}", e))?.1);
+        }
+        let pk = HardCodedAkdVRF {}.get_vrf_public_key().await.unwrap().as_bytes().to_vec();
+        ctl.write_delay_ms.store(1, Ordering::SeqCst);
+        let done = Arc::new(AtomicBool::new(false));
+        let target = labels[0].clone();
+        // the tombstoner
+        let tomb = {
+            let (st, done, target) = (st.clone(), done.clone(), target.clone());
+            tokio::spawn(async move {
+                let mut e = 1u64;
+                let mut n = 0u64;
+                while !done.load(Ordering::SeqCst) {
+                    if st.tombstone_value_states(&AkdLabel(target.clone()), e).await.is_ok() {
+                        n += 1;
+                    }
+                    e += 1;
+                    tokio::time::sleep(Duration::from_millis(2)).await;
+                }
+                n
+            })
+        };
+        // readers: history of the tombstoned label (AllowMissingValues), lookups of it and of another label
+        let mut readers = vec![];
+        for ri in 0..3u8 {
+            let (d, done, pk, l) = (dir.clone(), done.clone(), pk.clone(), if ri == 2 { labels[1].clone() } else { target.clone() });
+            readers.push(tokio::spawn(async move {
+                let mut seen: Vec<(u64, [u8; 32], bool, u8)> = vec![];
+                while !done.load(Ordering::SeqCst) && seen.len() < 5000 {
+                    if ri == 0 {
+                        if let Ok((p, e)) = d.key_history(&AkdLabel(l.clone()), HistoryParams::Complete).await {
+                            let v = key_history_verify::<TC>(&pk, e.1, e.0, AkdLabel(l.clone()), p, HistoryVerificationParams::AllowMissingValues { history_params: HistoryParams::Complete }).is_ok();
+                            seen.push((e.0, e.1, v, 2));
+                        }
+                    } else if let Ok((p, e)) = d.lookup(AkdLabel(l.clone())).await {
+                        let v = lookup_verify::<TC>(&pk, e.1, e.0, AkdLabel(l.clone()), p).is_ok();
+                        seen.push((e.0, e.1, v, 1));
+                    }
+                    tokio::task::yield_now().await;
+                }
+                seen
+            }));
+        }
+        for i in 0..publishes {
+            let b: Vec<(Vec<u8>, Vec<u8>)> = vec![(target.clone(), vec![80, i as u8]), (labels[1 + i % 4].clone(), vec![81, i as u8])];
+            hashes.push(dir.publish(upd(&b)).await.map_err(|e| format!("publish failed while tombstoning ran: {:?}", e))?.1);
+        }
+        done.store(true, Ordering::SeqCst);
+        let ntomb = tokio::time::timeout(Duration::from_secs(30), tomb).await.map_err(|_| "the tombstoning task did not return".to_string())?.map_err(|e| e.to_string())?;
+        if ntomb == 0 {
+            return Err("no tombstoning call succeeded".to_string());
+        }
+        for h in readers {
+            let seen = tokio::time::timeout(Duration::from_secs(30), h).await.map_err(|_| "a request did not return".to_string())?.map_err(|e| e.to_string())?;
+            for (e, h, v, kind) in seen {
+                let what = ["", "lookup", "key_history (AllowMissingValues)"][kind as usize];
+                if (e as usize) >= hashes.len() || hashes[e as usize] != h {
+                    return Err(format!("a {} answered (epoch {}, {}) which was never published", what, e, hx(&h)));
+                }
+                if !v {
+                    return Err(format!("a {} answer for the published pair of epoch {} does not verify", what, e));
+                }
+            }
+        }
+        // what the directory has committed to is unchanged: a fresh instance reports the last published pair and audits verify
+        let fresh = Directory::<TC, _, _>::new(StorageManager::new_no_cache(db.clone()), HardCodedAkdVRF {}, AzksParallelismConfig::disabled()).await.unwrap();
+        let eh = fresh.get_epoch_hash().await.map_err(|e| format!("{:?}", e))?;
+        if eh.0 as usize != hashes.len() - 1 || eh.1 != *hashes.last().unwrap() {
+            return Err(format!("after tombstoning a fresh instance reports ({}, {}) instead of the last published pair", eh.0, hx(&eh.1)));
+        }
+        let p = fresh.audit(1, eh.0).await.map_err(|e| format!("audit failed: {:?}", e))?;
+        if akd::auditor::audit_verify::<TC>(hashes[1..].to_vec(), p).await.is_err() {
+            return Err("the audit over all epochs does not verify against the published hashes after tombstoning".to_string());
+        }
+        Ok(())
+    });
+    cx.stat("c20_parallel_runs");
+    if let Err(e) = res {
+        cx.fail(format!("C20 [cfg {} cached {} multi-thread runtime, tombstoning while a publisher and readers run]: {}", cfg, cached, e));
+    }
+}
+
 /// probe entry: the multi-thread scenario alone
 pub fn c13par(_seed: u64, tier: u32) -> Cx {
     let mut cx = Cx::new();
@@ -1531,5 +1628,7 @@ pub fn c13par(_seed: u64, tier: u32) -> Cx {
     c13_parallel::<W>(&mut cx, n, false, true, false);
     c13_parallel::<W>(&mut cx, n, false, false, true);
     c13_parallel::<W>(&mut cx, n, true, true, true);
+    c20_parallel::<W>(&mut cx, n, true);
+    c20_parallel::<W>(&mut cx, n, false);
     cx
 }
